@@ -113,17 +113,22 @@ int safe_file_open_write(SAFEFILE *file, const char *filename)
 #endif
 }
 
-void safe_file_close(SAFEFILE *file)
+int safe_file_close(SAFEFILE *file)
 {
+    /* Returns zero if the system reported an error: for a file that was
+     * written, the data may not have reached the storage */
+    int ok = 1;
 #if defined(USE_POSIX_FDS)
-    if (file->fd >= 2)
-        close(file->fd);
+    if (file->fd >= 2 && close(file->fd) < 0)
+        ok = 0;
     file->fd = -1;
 #else
-    if (file->filename && strcmp(file->filename, "-") != 0)
-        fclose(file->file);
+    if (file->file && file->filename && strcmp(file->filename, "-") != 0 &&
+            fclose(file->file) != 0)
+        ok = 0;
     file->file = NULL;
 #endif
+    return ok;
 }
 
 int safe_file_read(SAFEFILE *file, void *data, size_t len)
